@@ -62,6 +62,9 @@ func Harness_C16_ingest_workers() {
 	if err == nil {
 		zzverif.Assert("no-block-or-row-lost-or-duplicated", int(tbl.RowsCount) == n && len(tbl.Blocks) == (n+254)/255)
 	}
+	if zzverif.Param("structure", 0) == 1 {
+		zzrepo.CheckStructure(db, sum)
+	}
 	zzverif.Reach("end")
 }
 
